@@ -462,7 +462,7 @@ def run_bounded(ctx):
     scopes = [("full", 4 if th else 3), ("core", 5 if th else 4), ("mini", 6 if th else 5), ("quote", 6 if th else 5)]
     for alpha, lmax in scopes:
         n = len(ALPHABETS[alpha])
-        for length in range(0 if alpha == "full" else lmax, lmax + 1):
+        for length in range(0, lmax + 1):
             total = n**length
             nsh = max(1, min(256, total // 4000))
             for sh in range(nsh):
@@ -509,6 +509,9 @@ def run_bounded(ctx):
     ctx.notes.append({"C14 outcome histogram": dict(sorted(outcomes.items()))})
     if totals:
         ctx.notes.append({"C14 bounded failure counts": {f"{k[0]} [{k[1]}]": v for k, v in sorted(totals.items())}})
+    if not ctx.explanation:
+        # only when no deductive module has described the run (vf/proofs is written separately)
+        ctx.explanation = "bounded stand-in only in this run: exception-safety/termination of the parse path observed on every string over a token alphabet up to a length bound (bounded), not proved"
     ctx.assume(
         "A-C14-syntaxerror: a plain SyntaxError is accepted iff some Python-kind token, as the library's tokenizer delimits it, is not a valid "
         "Python expression (backtick-quoted names counted as identifiers); when the fragment as written is valid once string literals are "
